@@ -24,7 +24,13 @@ and emits
                                     own named proof obligation.
 
 Anything outside the small grammar below makes the translator fail loudly (-> broken obligation -> search for a
-failing input by the harness)."""
+failing input by the harness).
+
+(round 5) Before the grammar is applied the comment-free source goes through `normalise()`: semantics-preserving rewrites with explicit,
+conservative side conditions (single-assignment `const` locals with stable pure initialisers inlined, `range()` / element range-for
+-> index loop, `if/return` -> `?:`, `continue` guard -> `if`, alpha-renaming of result locals), so that ordinary maintenance
+respellings give the byte-identical Gen files.  A rewrite whose side conditions cannot be established is not performed and the
+grammar fails as before -- the translator never guesses."""
 import os
 import re
 
@@ -1613,8 +1619,164 @@ def translate(repo):
             ("DuneVerif/Gen/C09Lanes.lean", "\n".join(L) + "\n")]
 
 
+
+
+# ------------------------------------------------------------------------------------------------
+# (round 5) self-test of the tolerance: `python3 tools/translators/tr_c09.py --selftest [repo]` copies the anchored files to a temporary
+# directory, applies each edit below and compares translate() with the output for the unchanged tree.  POS = behaviour-preserving
+# respellings (must give the identical output), NEG = near misses that change behaviour (must fail or give other output).  ~2 s.
+# ------------------------------------------------------------------------------------------------
+
+_SELFTEST = []
+DM, LP, IF, DF = ("dune/common/densematrix.hh", "dune/common/simd/loop.hh", "dune/common/simd/interface.hh", "dune/common/simd/defaults.hh")
+
+
+def _st(kind, name, edits):
+    _SELFTEST.append((kind, name, edits))
+
+
+allTrue_old = """        bool out = true;
+        for(std::size_t i=0; i<S; i++) {
+          out &= Simd::allTrue(mask[i]);
+        }
+        return out;"""
+_st('POS','o1_reduction_accumulator', [(LP, allTrue_old, """        bool everyLane = true;
+        for(std::size_t i=0; i<S; ++i)
+          everyLane = everyLane & Simd::allTrue(mask[i]);
+        return everyLane;""")])
+_st('POS','o2_det_return_expr', [(DM, """    det = Simd::cond(nonsingularLanes, det, field_type(0));
+    return det;""", """    return Simd::cond(nonsingularLanes, det, field_type(0));""")])
+_st('POS','o3_invert_continue_guard', [(DM, """          if(i!=pi)
+            for(size_type j=0; j<rows(); ++j)
+              swap(Simd::lane(l, (*this)[j][pi]),
+                   Simd::lane(l, (*this)[j][ i]));""", """          if(i==pi)
+            continue; // this lane did not exchange rows in step i
+          for(size_type j=0; j<rows(); ++j)
+            swap(Simd::lane(l, (*this)[j][pi]),
+                 Simd::lane(l, (*this)[j][ i]));""")])
+_st('POS','o4_isnan_index_loop', [(LP, """      Simd::Mask<LoopSIMD<T,S,A>> out;
+      for(auto l : range(S))
+        out[l] = Dune::isNaN(v[l]);
+      return out;""", """      Simd::Mask<LoopSIMD<T,S,A>> nanLanes;
+      for(std::size_t l = 0; l < S; ++l) {
+        nanLanes[l] = Dune::isNaN(v[l]);
+      }
+      return nanLanes;""")])
+_st('POS','o5_cond_guard_clause', [(IF, "      return mask ? ifTrue : ifFalse;", "      if(mask) {\n        return ifTrue;\n      }\n      return ifFalse;")])
+# negatives
+_st('NEG','n_reduce_shortcircuit', [(LP, allTrue_old, allTrue_old.replace("out &= Simd::allTrue(mask[i]);", "out = out && Simd::allTrue(mask[i]);"))])
+_st('NEG','n_reduce_break', [(LP, allTrue_old, """        bool out = true;
+        for(const M& entry : mask) {
+          out &= Simd::allTrue(entry);
+          if(!out) break;
+        }
+        return out;""")])
+_st('NEG','n_reduce_first_only', [(LP, allTrue_old, """        bool out = true;
+        for(const M& entry : mask) {
+          out &= Simd::allTrue(mask[0]);
+        }
+        return out;""")])
+lu_for = "    for (size_type i=0; i<A.rows(); i++)  // loop over all rows"
+_st('NEG','n_lu_n_minus1', [(DM, lu_for, "    const size_type n = A.rows() - 1;\n    for (size_type i=0; i<n; i++)")])
+_st('NEG','n_lu_int_n', [(DM, lu_for, "    const int n = A.rows();\n    for (size_type i=0; i<n; i++)")])
+_st('NEG','n_lu_piv_n_minus1', [(DM, lu_for, "    const size_type last = A.rows() - 1;\n" + lu_for),
+                               (DM, "        for (size_type k=i+1; k<A.rows(); k++)\n        {\n          auto abs", "        for (size_type k=i+1; k<last; k++)\n        {\n          auto abs")])
+hmax_old = """          if(m < Simd::lane(l, v))
+            m = Simd::lane(l, v);"""
+_st('NEG','n_hmax_lane0', [(DF, hmax_old, """        {
+          const Scalar<V> entry = Simd::lane(0, v);
+          if(m < entry)
+            m = entry;
+        }""")])
+_st('NEG','n_hmax_stale', [(DF, "        Scalar<V> m = Simd::lane(0, v);\n        for(std::size_t l = 1; l < Simd::lanes(v); ++l)\n" + hmax_old,
+   "        Scalar<V> m = Simd::lane(0, v);\n        const Scalar<V> first = m;\n        for(std::size_t l = 1; l < Simd::lanes(v); ++l)\n          if(first < Simd::lane(l, v))\n            m = Simd::lane(l, v);")])
+_st('NEG','n_cond_swapped', [(IF, "      return mask ? ifTrue : ifFalse;", "      if(mask)\n        return ifFalse;\n      else\n        return ifTrue;")])
+_st('NEG','n_continue_wrong', [(DM, "          if(i!=pi)\n            for(size_type j=0; j<rows(); ++j)", "          if(i!=pi)\n            continue;\n          for(size_type j=0; j<rows(); ++j)")])
+_st('NEG','n_det_mask_swapped', [(DM, "    det = Simd::cond(nonsingularLanes, det, field_type(0));\n    return det;", "    return Simd::cond(nonsingularLanes, field_type(0), det);")])
+_st('NEG','n_implcast_short', [(DF, "        for(auto l : range(Simd::lanes(u)))", "        const std::size_t laneCount = Simd::lanes(u) - 1;\n        for(std::size_t l = 0; l < laneCount; ++l)")])
+_st('NEG','n_isnan_from1', [(LP, "      for(auto l : range(S))\n        out[l] = Dune::isNaN(v[l]);", "      for(std::size_t l = 1; l < S; ++l)\n        out[l] = Dune::isNaN(v[l]);")])
+
+_st('POS','o6_pivot_conds_reordered', [(DM, """          pivmax = Simd::cond(mask, abs, pivmax);
+          imax   = Simd::cond(mask, simd_index_type(k), imax);""", """          imax   = Simd::cond(mask, simd_index_type(k), imax);
+          pivmax = Simd::cond(mask, abs, pivmax);""")])
+_st('NEG','n_pivot_conds_dependent', [(DM, """          pivmax = Simd::cond(mask, abs, pivmax);
+          imax   = Simd::cond(mask, simd_index_type(k), imax);""", """          imax   = Simd::cond(mask, simd_index_type(k), imax);
+          pivmax = Simd::cond(mask, abs, fvmeta::absreal(A[Simd::lane(0, imax)][i]));""")])
+_st('POS','o7_mv_hoisted_cols', [(DM, """      for (size_type i=0; i<rows(); ++i)
+      {
+        yy[i] = y_field_type(0);
+        for (size_type j=0; j<cols(); j++)
+          yy[i] += (*this)[i][j] * xx[j];""", """      const size_type nRows = rows();
+      const size_type nCols = cols();
+      for (size_type i=0; i<nRows; ++i)
+      {
+        yy[i] = y_field_type(0);
+        for (size_type j=0; j<nCols; j++)
+          yy[i] += (*this)[i][j] * xx[j];""")])
+
+# the mechanisms of the round-five refactorings harmless/C09_r1h1..h3, C02_r1h1
+_st('POS', 'h1_lu_rows_hoisted', [(DM, lu_for, "    const size_type n = A.rows();\n    for (size_type i=0; i<n; ++i)"),
+                                  (DM, "        for (size_type k=i+1; k<A.rows(); k++)\n        {\n          auto abs = fvmeta::absreal(A[k][i]);\n          auto mask = abs > pivmax;",
+                                   "        for (size_type k=i+1; k<n; ++k)\n        {\n          auto abs = fvmeta::absreal(A[k][i]);\n          auto mask = pivmax < abs;"),
+                                  (DM, "      else { // !throwEarly\n        if(!Simd::anyTrue(nonsingularLanes))\n          return;\n      }",
+                                   "      else if(!Simd::anyTrue(nonsingularLanes))\n        return;")])
+_st('POS', 'h2_reduce_range_for', [(LP, allTrue_old, """        bool out = true;
+        for(const M& entry : mask) {
+          out &= Simd::allTrue(entry);
+        }
+        return out;""")])
+_st('POS', 'h3_implcast_lanecount', [(DF, "        for(auto l : range(Simd::lanes(u)))", "        const std::size_t laneCount = Simd::lanes(u);\n        for(std::size_t l = 0; l < laneCount; ++l)")])
+_st('POS', 'h3_hmax_entry', [(DF, hmax_old, """        {
+          const Scalar<V> entry = Simd::lane(l, v);
+          if(m < entry)
+            m = entry;
+        }""")])
+_st('POS', 'h3_cond_if_else', [(IF, "      return mask ? ifTrue : ifFalse;", "      if(mask)\n        return ifTrue;\n      else\n        return ifFalse;")])
+
+# the hand-made changes of round four that were caught through the translator (design_notes/C09.md 12.4)
+_st('NEG', 'r4_M1_return_reduction', [(DM, "        if(!Simd::anyTrue(nonsingularLanes))\n          return;", "        if(!Simd::allTrue(nonsingularLanes))\n          return;")])
+_st('NEG', 'r4_M2_det_all_lanes_zero', [(DM, "    det = Simd::cond(nonsingularLanes, det, field_type(0));\n    return det;",
+                                         "    if(!Simd::allTrue(nonsingularLanes))\n      det = field_type(0);\n    return det;")])
+_st('NEG', 'r4_M4_mmhv_skip_zero', [(DM, "          yy[j] -= conjugateComplex((*this)[i][j])*xx[i];",
+                                     "        {\n          if (Simd::allTrue((*this)[i][j] == field_type(0))) continue;\n          yy[j] -= conjugateComplex((*this)[i][j])*xx[i];\n        }")])
+_st('NEG', 'r4_M5_pivot_any_lane', [(DM, "          pivmax = Simd::cond(mask, abs, pivmax);\n          imax   = Simd::cond(mask, simd_index_type(k), imax);",
+                                     "          if (Simd::anyTrue(mask)) { pivmax = abs; imax = simd_index_type(k); }")])
+_st('NEG', 'r4_M6_usmhv_lane0_alpha', [(DM, "            alpha*conjugateComplex((*this)[i][j])*xx[i];", "            field_type(Simd::lane(0, alpha))*conjugateComplex((*this)[i][j])*xx[i];")])
+
+
+def _selftest(repo):
+    import shutil, tempfile
+    files = [DM, LP, IF, DF, "dune/common/simd/standard.hh", "dune/common/simd/DESIGN.md"]
+    base = translate(repo)
+    bad = 0
+    for kind, name, edits in _SELFTEST:
+        root = tempfile.mkdtemp(prefix="tr_c09_")
+        try:
+            for f in files:
+                os.makedirs(os.path.dirname(os.path.join(root, f)), exist_ok=True)
+                shutil.copy(os.path.join(repo, f), os.path.join(root, f))
+            for f, old, new in edits:
+                s = open(os.path.join(root, f)).read()
+                if s.count(old) != 1:
+                    raise TranslateError("selftest %s: anchor text not found (the source moved on; update the self-test)" % name)
+                open(os.path.join(root, f), "w").write(s.replace(old, new))
+            try:
+                verdict = "same" if translate(root) == base else "differs"
+            except TranslateError:
+                verdict = "loud"
+        finally:
+            shutil.rmtree(root)
+        ok = (verdict == "same") if kind == "POS" else (verdict != "same")
+        bad += not ok
+        print("%s %-28s %-8s %s" % (kind, name, verdict, "ok" if ok else "WRONG"))
+    print("selftest: %d cases, %d wrong" % (len(_SELFTEST), bad))
+    return bad
+
+
 if __name__ == "__main__":
     import sys
+    if len(sys.argv) > 1 and sys.argv[1] == "--selftest":
+        sys.exit(1 if _selftest(sys.argv[2] if len(sys.argv) > 2 else "/repo") else 0)
     for path, content in translate(sys.argv[1] if len(sys.argv) > 1 else "/repo"):
         print("=====", path)
         print(content)
